@@ -352,6 +352,26 @@ def _stored_names(fn) -> Set[str]:
     return out
 
 
+def _continue_guards_to_ifs(body: List[ast.stmt]) -> List[ast.stmt]:
+    out: List[ast.stmt] = []
+    for i, b in enumerate(body):
+        if isinstance(b, ast.If) and len(b.body) == 1 and isinstance(b.body[0], ast.Continue) and not b.orelse:
+            rest = _continue_guards_to_ifs(body[i + 1:])
+            if rest:
+                neg = b.test.operand if (isinstance(b.test, ast.UnaryOp) and isinstance(b.test.op, ast.Not)) else ast.UnaryOp(op=ast.Not(), operand=b.test)
+                guard = ast.copy_location(ast.If(test=neg, body=rest, orelse=[]), b)
+                ast.fix_missing_locations(guard)
+                out.append(guard)
+            else:
+                # a trailing `if c: continue` only evaluates c
+                ex = ast.copy_location(ast.Expr(value=b.test), b)
+                if any(isinstance(n, (ast.Call, ast.Await, ast.NamedExpr)) for n in ast.walk(b.test)):
+                    out.append(ex)
+            return out
+        out.append(b)
+    return out
+
+
 def _signed_literal(x) -> bool:
     return isinstance(x, ast.UnaryOp) and isinstance(x.op, (ast.USub, ast.UAdd)) and isinstance(x.operand, ast.Constant) \
         and isinstance(x.operand.value, (int, float)) and not isinstance(x.operand.value, bool)
@@ -1022,6 +1042,11 @@ class Normalizer:
         if isinstance(st, ast.For) and isinstance(st.iter, ast.Name) and st.iter.id in binds:
             st = copy.copy(st)
             st.iter = copy.deepcopy(binds[st.iter.id])
+        if isinstance(st, (ast.For, ast.While)) and any(isinstance(b, ast.If) and len(b.body) == 1 and isinstance(b.body[0], ast.Continue) and not b.orelse
+                                                         for b in st.body):
+            # `if c: continue` at the top of a loop body guards the rest of the body by `not c`
+            st = copy.copy(st)
+            st.body = _continue_guards_to_ifs(st.body)
         if isinstance(st, ast.For):
             # a module-level constant tuple of constants (a table of names), and `zip` of two displays of equal length: the display itself
             disp = self._display_of(st.iter, binds)
@@ -1870,6 +1895,9 @@ class Normalizer:
         if not isinstance(st, (ast.Assign, ast.Return)) or not isinstance(v, (ast.ListComp, ast.SetComp, ast.DictComp)):
             return False
         parts = [v.key, v.value] if isinstance(v, ast.DictComp) else [v.elt]
+        # ... or it ranges over a generator helper, which is dissolved only at a `for` statement
+        if any(isinstance(g.iter, ast.Call) and self._gen_target(g.iter, cls) is not None for g in v.generators):
+            return True
         for part in parts:
             for c in ast.walk(part):
                 if isinstance(c, ast.Call):
